@@ -215,11 +215,9 @@ Definition find_newerxy (w : str) : bool :=
   | 45 :: 110 :: 101 :: 119 :: 101 :: 114 :: x :: y :: [] => mem_ch x FIND_NEWER_XY && mem_ch y FIND_NEWER_XY
   | _ => false
   end.
+Definition dashb (w : str) : bool := match w with c :: _ => N.eqb c 45 | [] => false end.
 Definition looks_like_expr (w : str) : bool :=
-  match w with
-  | 45 :: _ :: _ => true
-  | _ => mem_str w (map s2l ["("; ")"; "!"; ","])
-  end.
+  (dashb w && Nat.ltb 1 (length w)) || mem_str w (map s2l ["("; ")"; "!"; ","]).
 
 Inductive fstate :=
 | FLead                                   (* -H -L -P -D x -On *)
@@ -306,18 +304,18 @@ Fixpoint sh_short (cluster : str -> option (bool * bool * nat)) (l : list str) (
       match owed with
       | Datatypes.S k => if optname_ok w then sh_short cluster r want_c want_s k else None
       | O =>
-          match w with
-          | 45 :: [] => bash_finish want_c want_s r                     (* - *)
-          | 45 :: 45 :: [] => bash_finish want_c want_s r               (* -- *)
-          | sign :: c :: cs =>
-              if N.eqb sign 45 || N.eqb sign 43 then
-                match cluster (c :: cs) with
-                | None => None
-                | Some (hc, hs, n) => sh_short cluster r (want_c || hc) (want_s || hs) n
-                end
-              else bash_finish want_c want_s l
-          | _ => bash_finish want_c want_s l
-          end
+          if str_eqb w [45] || str_eqb w [45; 45] then bash_finish want_c want_s r     (* -  and  -- *)
+          else
+            match w with
+            | sign :: c :: cs =>
+                if N.eqb sign 45 || N.eqb sign 43 then
+                  match cluster (c :: cs) with
+                  | None => None
+                  | Some (hc, hs, n) => sh_short cluster r (want_c || hc) (want_s || hs) n
+                  end
+                else bash_finish want_c want_s l
+            | _ => bash_finish want_c want_s l
+            end
       end
   end.
 (* bash: long options first (one or two dashes), then the short ones *)
@@ -395,9 +393,9 @@ Fixpoint pflag (sp : pspec) (interspersed : bool) (l : list str) : pres :=
   match l with
   | [] => POk [] None false
   | w :: r =>
-      match w with
-      | 45 :: 45 :: [] => POk [] (Some r) false
-      | 45 :: 45 :: body =>
+      match word_kind w with
+      | WDDash => POk [] (Some r) false
+      | WLong body =>
           let '(n, v) := split_eq body in
           if str_eqb n (S "help") then phelp (pflag sp interspersed r)
           else if mem_str n (p_val_l sp) then
@@ -408,14 +406,14 @@ Fixpoint pflag (sp : pspec) (interspersed : bool) (l : list str) : pres :=
           else if mem_str n (p_bool_l sp) then
             match v with Some _ => PErr (* --bool=value: no claim *) | None => pflag sp interspersed r end
           else PErr
-      | 45 :: c :: cs =>
-          match pcluster sp (c :: cs) with
+      | WShort cs =>
+          match pcluster sp cs with
           | PCErr => PErr
           | PCHelp => phelp (pflag sp interspersed r)
           | PCDone => pflag sp interspersed r
           | PCNeed => match r with _ :: r' => pflag sp interspersed r' | [] => PErr end
           end
-      | _ => if interspersed then pcons w (pflag sp interspersed r) else POk l None false
+      | WOperand => if interspersed then pcons w (pflag sp interspersed r) else POk l None false
       end
   end.
 
@@ -428,7 +426,7 @@ Definition docker_exec_flags : pspec :=
   {| p_bool_s := map c1 ["d"; "i"; "t"]; p_val_s := map c1 ["e"; "u"; "w"];
      p_bool_l := map s2l ["detach"; "interactive"; "tty"; "privileged"];
      p_val_l := map s2l ["detach-keys"; "env"; "env-file"; "user"; "workdir"] |}.
-Definition joinpos (p : list str) (a : option (list str)) : list str := p ++ match a with Some x => x | None => [] end.
+Definition joinpos (p : list str) (a : option (list str)) : list str := match a with Some x => p ++ x | None => p end.
 Definition docker_exec_args (args : list str) : option (list (list str)) :=   (* the words after exec *)
   match pflag docker_exec_flags false args with
   | POk p a h =>
@@ -522,23 +520,23 @@ Fixpoint fd_run (fuel : nat) (l : list str) : option (list (list str)) :=
       match l with
       | [] => Some []
       | w :: r =>
-          match w with
-          | 45 :: 45 :: [] => Some []
-          | 45 :: 45 :: body =>
+          match word_kind w with
+          | WDDash => Some []
+          | WLong body =>
               let '(n, v) := split_eq body in
               if str_eqb n (S "exec") || str_eqb n (S "exec-batch") then
                 exec_here (match v with Some x => [x] | None => [] end) r
               else if mem_str n FD_VAL_L then
                 match v with Some _ => fd_run f r | None => match r with _ :: r' => fd_run f r' | [] => None end end
               else match v with Some _ => None | None => fd_run f r end      (* any other long flag: boolean *)
-          | 45 :: c :: cs =>
-              match fd_cluster (c :: cs) with
+          | WShort cs =>
+              match fd_cluster cs with
               | FDErr => None
               | FDPlain => fd_run f r
               | FDNeed => match r with _ :: r' => fd_run f r' | [] => None end
               | FDExec att => exec_here (match att with [] => [] | _ => [att]  end) r
               end
-          | _ => fd_run f r
+          | WOperand => fd_run f r
           end
       end
   end.
